@@ -133,3 +133,10 @@ pub fn monitor(actor: ActorCell) {
 pub fn demonitor(actor: ActorId) {
     let _ = get_pid_listeners().remove(&actor);
 }
+
+/// verif: the ids currently subscribed to the pid lifecycle events (the keys of the listener map),
+/// so that a harness can compare the monitor list after every operation.
+#[cfg(feature = "verif")]
+pub fn verif_pid_listeners() -> Vec<ActorId> {
+    get_pid_listeners().iter().map(|e| *e.key()).collect()
+}
